@@ -26,29 +26,40 @@ Definition sfind (id : N) (ts : list p19) : option p19 := find_by s_id id ts.
 Definition self_or_anc (t : p19) (r : N) : bool := (r =? s_id t) || mem r (s_allp t).
 
 Definition builder_defaults (w : world) : option script :=
-  match w with WBuilder s => let '(_, _, _, _, kb) := s in if kb =? 1 then Some s else None end.
+  match w with
+  | WBuilder s => let '(_, _, _, _, kb) := s in if kb =? 1 then Some s else None
+  | _ => None
+  end.
+
+(* the documented default sets and per-term classification *)
+Definition defaults_ok (ts : list p19) (cat mo : list N) : bool :=
+  match sfind 1 ts, sfind 118 ts with
+  | Some root, Some ph =>
+      let mods := set_of (filter (fun c => negb (c =? 118)) (s_children root)) in
+      list_eqb mo mods
+      && list_eqb cat (set_of (mods ++ s_children ph))
+      && forallb (fun t =>
+            (s_ismod t =? boolN (existsb (self_or_anc t) mo))
+            && list_eqb (s_cats t) (filter (self_or_anc t) cat)
+            && ascb (s_cats t)) ts
+  | _, _ => false
+  end.
 
 Definition spec_C19 (i : winput) (o : obs_C19) : bool :=
-  match builder_defaults (fst i) with
-  | None => true                       (* not a build_with_defaults construction *)
-  | Some s =>
-      let roots_present := term_exists s 1 && term_exists s 118 in
-      match o with
-      | Ok (ts, cat, mo) =>
-          roots_present &&
-          match sfind 1 ts, sfind 118 ts with
-          | Some root, Some ph =>
-              let mods := set_of (filter (fun c => negb (c =? 118)) (s_children root)) in
-              list_eqb mo mods
-              && list_eqb cat (set_of (mods ++ s_children ph))
-              && forallb (fun t =>
-                    (s_ismod t =? boolN (existsb (self_or_anc t) mo))
-                    && list_eqb (s_cats t) (filter (self_or_anc t) cat)
-                    && ascb (s_cats t)) ts
-          | _, _ => false
+  match fst i with
+  | WBytes _ =>
+      (* every binary load ends in build_with_defaults *)
+      match o with Ok (ts, cat, mo) => defaults_ok ts cat mo | _ => true end
+  | WBuilder s =>
+      match builder_defaults (fst i) with
+      | None => true                       (* build_minimal: no defaults requested *)
+      | Some _ =>
+          let roots_present := term_exists s 1 && term_exists s 118 in
+          match o with
+          | Ok (ts, cat, mo) => roots_present && defaults_ok ts cat mo
+          | Err DoesNotExist => negb roots_present
+          | Panic => let '(_, terms, _, _, _) := s in existsb (fun t => MAX_HPO_ID <=? fst t) terms
+          | _ => false
           end
-      | Err DoesNotExist => negb roots_present
-      | Panic => let '(_, terms, _, _, _) := s in existsb (fun t => MAX_HPO_ID <=? fst t) terms
-      | _ => false
       end
   end.
